@@ -239,8 +239,11 @@ class Result:
         self.extra = collections.Counter()
         self.capped = False
         self.wall = 0.0
+        self.payload = {}
 
     def merge(self, o: "Result"):
+        for k, v in o.payload.items():
+            self.payload.setdefault(k, {}).update(v)
         self.executions += o.executions
         self.points += o.points
         self.states |= o.states
